@@ -34,7 +34,13 @@ func VerifC06Wait() {
 
 	var ctx context.Context
 	var cancel context.CancelFunc
-	withCtx := vBool()
+	withCtx := false
+	switch vParam("ctx", -1) {
+	case -1:
+		withCtx = vBool()
+	case 1:
+		withCtx = true
+	}
 	if withCtx {
 		ctx, cancel = context.WithCancel(context.Background())
 	}
